@@ -7,6 +7,7 @@ import pyModeS as pms  # noqa: F401  (path check)
 from pyModeS import py_common
 from ref import cpr
 from vlib import dual
+from vlib import volume
 from vlib.core import Leg, call
 
 PROPERTY = "C06"
@@ -16,7 +17,7 @@ RULE = ("latitudes: the full 0.0005-degree grid over [-90,90] (blocks of 500 poi
         "values printed in DO-260B), either neighbour accepted within 1e-9 deg of a transition; evenness and monotonicity on "
         "every block; both py_common.cprNL and the emulated working-tree c_common.cprNL. non-trivial = latitude within "
         "0.02 deg of a transition or |lat| >= 86.5 or |lat| < 1e-6"
-        ' Also: whole-degree latitudes passed as Python ints.')
+        ' Also: whole-degree latitudes passed as Python ints, 140 000 / 1.3 million distinct latitudes in a row in one process (leg volume).')
 ASSUMPTIONS = ["the Cython twin is observed through /verif/pyxemu (no Cython compiler on the image); calibrated against the pre-built binary in C15",
                "reference transition latitudes computed in float64 (error ~1e-14 deg) and checked against the 8-decimal DO-260B table"]
 
@@ -169,7 +170,18 @@ def chk_float(case, note):
     return None
 
 
+
+# ---------------------------------------------------------------- volume: one process, very many distinct latitudes
+def vol_step(a, b, k):
+    lat = (a >> 11) / 9007199254740992.0 * 180.0 - 90.0
+    if a & 7 == 0:   # close to a transition
+        t = cpr.TRANS_LIST[b % len(cpr.TRANS_LIST)]
+        lat = (t + ((b >> 20) % 2001 - 1000) * 1e-7) * (1 if b & (1 << 40) else -1)
+    return judge(impl("py"), lat)
+
+
 LEGS = [
+    volume.leg(vol_step, 140000, 1300000, "140 000 (thorough: 1.3 million per process) distinct latitudes through cprNL in one process"),
     Leg("grid", chk_grid, enum=enum_grid, exhaustive=True, doc="full latitude grid, both implementations, evenness and monotonicity"),
     Leg("neighbourhoods", chk_nbh, enum=enum_nbh, exhaustive=True, doc="ulp- to 2e-3-neighbourhoods of 58 transitions, 0, 87, 90"),
     Leg("floats", chk_float, strategy=s_lat, quick=20000, thorough=600000, doc="Hypothesis floats, transition-biased"),
